@@ -237,6 +237,23 @@ def run_c03(res):
     wroles = None
     import c02
     wroles = c02.wrapper_param_roles(facts, cmap)
+    # S7: the callbacks index the per-worker kernel vector by starpu_worker_get_id(): every way of constructing the executor must have
+    # grown that vector to the worker count (in the constructor, or in execute() before the first submission)
+    res.rule("C03.S7 StarPU: every constructor of the executors leaves one kernel per worker (increaseNumberOfKernels reached from the constructor or from execute() before the first submission)")
+    for cls, _hb in CLASSES:
+        ms = [m for m in facts.methods_of(cls) if tbf.body(m) is not None and not m.get("inst")]
+        ctors = [m for m in ms if m["kind"] == "CXXConstructor" and m["params"] and not (len(m["params"]) == 1 and cls in m["params"][0]["t"])]
+        ex_ = [m for m in ms if m["name"] == "execute"]
+        if not ctors or not ex_:
+            raise AnalysisBroken("%s: constructors / execute not found" % cls)
+        grows = lambda m: any(c_.get("k") in ("CallExpr", "CXXMemberCallExpr") and tbf.callee_name(c_) == "increaseNumberOfKernels" for c_ in walk(tbf.body(m)))
+        in_execute = any(grows(m) for m in ex_)
+        for m in ctors:
+            fills = any(c_.get("k") in ("CallExpr", "CXXMemberCallExpr") and tbf.callee_name(c_) in ("emplace_back", "push_back") and tbf.call_base(c_) is not None and strip(tbf.call_base(c_)).get("name") == "kernels" for c_ in walk(tbf.body(m)))
+            res.instance("C03.S7.kernels-per-worker", "%s ctor@%d" % (cls, m["l"][1]), facts.loc(m), "puts a kernel in the vector: %s; grows it to the worker count: %s" % (fills, grows(m) or in_execute))
+            if fills and not grows(m) and not in_execute:
+                res.violation("C03.S7.kernels-per-worker", tbf.rel(facts.path_of(m)), m["qname"], "one-kernel@%d" % m["l"][1], m["l"][1],
+                              "this constructor leaves ONE kernel in the vector the callbacks index by starpu_worker_get_id(), and execute() does not grow it either: with two workers or more every task that runs on worker id >= 1 uses kernels[id] past the end of the vector (the constructor taking a kernel grows it through ExecOnWorkers)")
     ninsert = 0
     import cursor
     for cls, builder in CLASSES:
